@@ -36,7 +36,7 @@ LEVEL_NOTE = (
 TECHNIQUE = 'path-sensitive def-use substitution + rational-function identity on ast (static)'
 
 UQT = shared.UQT
-KEEP = frozenset({'qmin', 'qmax', 'min_bound'})
+KEEP = frozenset()
 
 
 def _paths(ctx, name, keep=KEEP):
@@ -58,11 +58,23 @@ def r2_scale_formulas(ctx):
   if len(params) < 4:
     raise index.AnalysisError(f'{f.fq}: signature changed')
   mn, mx, bits, sym = params[:4]
-  ref = {
-      True: (f'np.maximum(np.maximum(np.abs({mn}), np.abs({mx})), min_bound) / qmax', '0'),
-      False: (f'np.maximum(np.maximum({mx}, 0) - np.minimum({mn}, 0), min_bound) / (qmax - qmin)',
-              f'np.rint(qmin - np.minimum({mn}, 0) / (np.maximum(np.maximum({mx}, 0) - np.minimum({mn}, 0), min_bound) / (qmax - qmin)))'),
-  }
+  rng = f'get_quantized_range(IntType({bits}, signed=True))'
+  qmin, qmax = f'{rng}[0]', f'{rng}[1]'
+
+  def ref(arm, mb):
+    if arm:
+      return (f'np.maximum(np.maximum(np.abs({mn}), np.abs({mx})), {mb}) / {qmax}', '0')
+    return (f'np.maximum(np.maximum({mx}, 0) - np.minimum({mn}, 0), {mb}) / ({qmax} - {qmin})',
+            f'np.rint({qmin} - np.minimum({mn}, 0) / (np.maximum(np.maximum({mx}, 0) - np.minimum({mn}, 0), {mb}) / ({qmax} - {qmin})))')
+
+  def clamp_of(e):
+    # the constant operand of the outermost np.maximum(<range>, <constant>) of the numerator
+    for x in ast.walk(e):
+      if isinstance(x, ast.Call) and common.call_name(x) in ('np.maximum', 'numpy.maximum') and len(x.args) == 2:
+        for a in x.args:
+          if isinstance(a, ast.Constant) and isinstance(a.value, (int, float)) and not isinstance(a.value, bool):
+            return a.value
+    return None
   seen = set()
   for p in ps:
     if p.raises is not None:
@@ -79,7 +91,10 @@ def r2_scale_formulas(ctx):
     if arm is None:
       raise index.AnalysisError(f'{f.fq}: path {p.cond_text()} is not decided by `{sym}` alone')
     seen.add(arm)
-    want_scale, want_zp = ref[arm]
+    mbv = clamp_of(scale)
+    ctx.check(R, isinstance(mbv, (int, float)) and 0 < mbv <= 1e-2, f.node, f, f'lower clamp {mbv} when {p.cond_text()}',
+              'the range must be clamped from below by a small positive constant before dividing (scale must stay positive for constant tensors)')
+    want_scale, want_zp = ref(arm, repr(mbv) if mbv is not None else 'MISSING_CLAMP')
     ctx.check(R, algebra.same(scale, want_scale), f.node, f, f'scale when {p.cond_text()}',
               f'scale is {defuse.norm(scale)[:200]}; the reference is {want_scale}')
     # zero point: cast(<formula>) - look through the cast
@@ -96,24 +111,6 @@ def r2_scale_formulas(ctx):
               f'zero point is {defuse.norm(inner)[:200]}; the reference is {want_zp}')
     ctx.sample(R, {'path': p.cond_text(), 'scale': defuse.norm(scale)[:160]})
   ctx.check(R, seen == {True, False}, f.node, f, 'paths', 'symmetric and asymmetric paths must both exist')
-  # qmin/qmax come from the signed range of the configured width, min_bound is a positive constant
-  src = f.node
-  defs = defuse.own_assignments(src)
-  mb = defs.get('min_bound', [None])[0]
-  val = None
-  try:
-    val = ctx.ev.eval(mb, f.module, {}) if mb is not None else None
-  except Exception:  # pylint: disable=broad-except
-    val = None
-  ctx.check(R, isinstance(val, (int, float)) and 0 < val <= 1e-2, f.node, f, f'min_bound = {val}',
-            'the lower clamp of the range must be a small positive constant (scale must stay positive for constant tensors)')
-  rng = [c for c in common.calls_in(src) if common.call_name(c).endswith('get_quantized_range')]
-  ok = False
-  for c in rng:
-    a = defuse.norm(defuse.Inliner(ctx.repo).inline(f, c.args[0])) if c.args else ''
-    if 'signed=True' in a.replace(' ', '') and bits in a:
-      ok = True
-  ctx.check(R, ok, f.node, f, 'get_quantized_range(IntType(num_bits, signed=True))', 'qmin/qmax are not the signed range of the configured width')
   # get_quantized_range itself
   g, gps = _paths(ctx, 'get_quantized_range', keep=frozenset())
   for p in gps:
@@ -188,9 +185,10 @@ def r6_rank_fix_first(ctx):
 def r7_narrow_and_quantize(ctx):
   R = 'C17.R7'
   ctx.rule(R, 'quantize = cast(clip(rint(x/scale + zp))) with narrow range iff symmetric', floor=2)
-  f, ps = _paths(ctx, '_round_and_clip', keep=frozenset({'qmin', 'qmax'}))
+  f, ps = _paths(ctx, '_round_and_clip', keep=frozenset())
   ctx.instance(R)
   t, qt, nr = f.pos_params[:3]
+  qmin, qmax = f'get_quantized_range({qt})[0]', f'get_quantized_range({qt})[1]'
   seen = set()
   for p in ps:
     narrow = [taken for c, taken in p.conds if defuse.norm(c) == nr]
@@ -199,17 +197,14 @@ def r7_narrow_and_quantize(ctx):
       ctx.check(R, narrow == [True] and signed == [False], p.raises, f, p.raises, f'_round_and_clip raises when {p.cond_text()}')
       continue
     if narrow == [True]:
-      want = f'np.clip(np.rint({t}), qmin + 1, qmax)'
+      want = f'np.clip(np.rint({t}), {qmin} + 1, {qmax})'
       seen.add('narrow')
     else:
-      want = f'np.clip(np.rint({t}), qmin, qmax)'
+      want = f'np.clip(np.rint({t}), {qmin}, {qmax})'
       seen.add('full')
     ctx.check(R, algebra.same(p.ret, want), f.node, f, f'clip when {p.cond_text()}',
               f'_round_and_clip returns {defuse.norm(p.ret)[:120]}, the reference is {want}')
   ctx.check(R, seen == {'narrow', 'full'}, f.node, f, 'paths', 'narrow and full range paths must both exist')
-  defs = defuse.own_assignments(f.node)
-  rng = [c for c in common.calls_in(f.node) if common.call_name(c).endswith('get_quantized_range')]
-  ctx.check(R, len(rng) == 1 and rng[0].args and ast.unparse(rng[0].args[0]) == qt, f.node, f, 'get_quantized_range(qtype)', 'clip bounds are not the range of the requested type')
   for name in ('uniform_quantize', 'uniform_quantize_for_emulated_subchannel'):
     q, qps = _paths(ctx, name, keep=frozenset({'quantization_params'}))
     ctx.instance(R)
